@@ -1864,6 +1864,7 @@ class Engine:
                         new = self.mk_sym(aty['to'], self.fresh('havoc'), st)
                         st.store[cell] = self.set_path(st.store.get(cell), pth, new, st) if pth else new
                         st.events.append(('havoc', cell, pth, sp, fn['path']))
+                        rec.setdefault('havoc_after', []).append((cell, tuple(pth), new))
                     elif aty is None:
                         raise Undecided('cannot type reference argument of opaque call', sp)
             dty = self.place_ty(t['dest'], fr)
@@ -1890,12 +1891,56 @@ class Engine:
             or path in ('core::option::unwrap_failed', 'core::result::unwrap_failed', 'core::option::expect_failed',
                         'core::slice::index::slice_index_fail', 'core::str::slice_error_fail')
 
+    def value_may_need_drop(self, v, depth=0):
+        if v is None or depth > 8:
+            return v is not None
+        if v[0] == 'adt':
+            if v[1] in self.prog.adts and self.prog.find_drop_impl(v[1]) is not None:
+                return True
+            return any(self.value_may_need_drop(x, depth + 1) for x in v[3])
+        if v[0] == 'se':
+            if self.prog.find_drop_impl(v[1]) is not None:
+                return True
+            return any(self.value_may_need_drop(x, depth + 1) for fs in v[3] if fs is not None for x in fs)
+        if v[0] == 'arr':
+            return any(self.value_may_need_drop(x, depth + 1) for x in v[1])
+        return False
+
     def drop_glue(self, ty, v, cell, path, st, out, depth):
         """Drop order of a value: its own `Drop::drop` (if its type has a local impl), then its fields in
         declaration order.  Appends (impl fn path, cell, path) to out."""
-        if ty is None or v is None or depth > 5:
+        if ty is None or v is None:
             return
+        if depth > 8:
+            raise Undecided('drop glue nested deeper than 8 levels')
         k = ty.get('k')
+        if k in ('param', 'alias', 'other', 'opaque'):
+            # a value of a generic parameter's type: the value itself says what it is
+            if v[0] == 'adt' and v[1] in self.prog.adts:
+                ty = {'k': 'adt', 'path': v[1], 'local': self.prog.adts[v[1]].get('local'), 'args': []}
+            elif v[0] == 'adt' and v[1] == '(tuple)':
+                ty = {'k': 'tuple', 'elems': [{'k': 'param', 'name': '?'}] * len(v[3])}
+            elif v[0] == 'adt' and v[1].startswith('(closure)'):
+                ty = {'k': 'closure', 'upvars': [{'k': 'param', 'name': '?'}] * len(v[3])}
+            elif v[0] == 'arr':
+                ty = {'k': 'array', 'elem': {'k': 'param', 'name': '?'}}
+            elif v[0] == 'se' and v[1] in self.prog.adts:
+                ty = {'k': 'adt', 'path': v[1], 'local': self.prog.adts[v[1]].get('local'), 'args': []}
+            elif v[0] == 'dyn':
+                raise Undecided('drop of a trait object')
+            else:
+                return      # an opaque value of the parameter's own type: its drop glue belongs to the instantiating type
+            k = ty['k']
+        if k == 'adt' and ty['path'] in ('core::mem::ManuallyDrop', 'core::mem::MaybeUninit', 'core::mem::manually_drop::ManuallyDrop',
+                                         'core::mem::maybe_uninit::MaybeUninit'):
+            return      # these wrappers exist precisely to suppress the drop of their contents
+        if k == 'adt' and ty['path'] in self.prog.adts and self.prog.adts[ty['path']]['kind'] == 'union':
+            return      # unions never drop their fields
+        if k == 'array':
+            if v[0] == 'arr':
+                for i, x in enumerate(v[1]):
+                    self.drop_glue(ty['elem'], x, cell, path + (('i', i),), st, out, depth + 1)
+            return
         if k == 'adt':
             impl_fn = self.prog.find_drop_impl(ty['path'])
             if impl_fn is not None:
@@ -1906,6 +1951,8 @@ class Engine:
             if v[0] == 'se':
                 v = self.simp(v, st)
                 if v[0] != 'adt':
+                    if self.value_may_need_drop(v):
+                        raise Undecided('drop of an enum value whose variant is not decided and whose payload has a Drop impl')
                     return
             if a['kind'] == 'enum' and not self.prog.is_fieldless_enum(ty['path']):
                 vi = v[2]
